@@ -75,9 +75,15 @@ def conditions(tier):
         out.append(Cond(nm, src_q, fn, to, bound, replay="replay_model", encodes=ENC))
 
     for ps in itertools.product((1, -1), repeat=2):
-        n = "arb2_FGF_" + sfx((), ps)
-        t.append(("two_arbitrary_pieces_FGF_one_group_" + sfx((), ps), gen_arbitrary(n, [("S1", "FGF")], [(0, "S1"), (0, "S1")], sym_strands=False, pstrands=ps, body="gaps_any"), n, 9000,
-                  f"input F G F, two ARBITRARY pieces in one Pretext scaffold (strands {ps}), e.g. a single-texel piece that loses its only contig to its neighbour"))
+        # split by the rows (0 contig, 1 gap, 2 contig, 3 beyond the end) that the first piece's two ends fall in: 10 regions cover 1 <= a0 <= b0
+        def _r(x, k):
+            return [f"{x} <= l0_0", f"l0_0 < {x} <= l0_0 + g0_1", f"l0_0 + g0_1 < {x} <= l0_0 + g0_1 + l0_2", f"{x} > l0_0 + g0_1 + l0_2"][k]
+        for i0 in range(4):
+            for j0 in range(i0, 4):
+                n = f"arb2_FGF_r{i0}{j0}_" + sfx((), ps)
+                t.append((f"two_arbitrary_pieces_FGF_one_group_r{i0}{j0}_" + sfx((), ps),
+                          gen_arbitrary(n, [("S1", "FGF")], [(0, "S1"), (0, "S1")], sym_strands=False, pstrands=ps, body="gaps_any", region=[_r("a0", i0), _r("b0", j0)]), n, 3000,
+                          f"input F G F, two ARBITRARY pieces in one Pretext scaffold (strands {ps}); the first piece starts in row {i0} and ends in row {j0} (0 contig, 1 gap, 2 contig, 3 beyond): the 10 row pairs cover every first piece; the second piece is unrestricted"))
     for ps in ((1, 1, 1), (1, -1, 1), (-1, -1, -1)):
         n = "m2_FGF_1g_" + sfx((), ps)
         t.append(("two_cuts_FGF_one_group_" + sfx((), ps), _m(n, [("S1", "FGF")], ((2,), [(0, 0, 0), (0, 0, 2), (0, 0, 1)]), False, ps), n, 9000,
